@@ -50,9 +50,7 @@ func (w *World) checkPrincipalNodeType(P string, f *Facts, r *Roles, ef *ExecFac
 		if fa.Field == r.CtxResultField || fa.Field == r.CtxPosField || fa.Field == r.CtxSizeField || fa.Field == r.CtxRootField {
 			return
 		}
-		if _, isC := s.Val.(*ssa.Const); isC {
-			cands[fa.Field] = true
-		}
+		cands[fa.Field] = true
 	})
 	if len(cands) == 0 {
 		w.check(P, "R01.14", "axis handler records the principal node type", h.Pos(), false,
@@ -71,7 +69,7 @@ func (w *World) checkPrincipalNodeType(P string, f *Facts, r *Roles, ef *ExecFac
 	axes := []string{"ancestor", "ancestor-or-self", "attribute", "child", "descendant", "descendant-or-self", "following", "following-sibling", "namespace", "parent", "preceding", "preceding-sibling", "self"}
 	vals := map[string]string{}
 	for _, ax := range axes {
-		v, why := fieldAtSuccess(h, F, ax)
+		v, why := fieldAtSuccess(h, F, ax, at)
 		if why != "" {
 			w.undecided(P, "R01.14", "axis "+ax+": principal node type", h.Pos(), why)
 			continue
@@ -100,7 +98,7 @@ func (w *World) checkPrincipalNodeType(P string, f *Facts, r *Roles, ef *ExecFac
 	for nt, hd := range f.Handlers {
 		for _, a := range f.Alts[nt] {
 			if len(a.Syms) == 1 && !a.Syms[0].IsNT && a.Syms[0].Name == "@" {
-				v, why := fieldAtSuccess(hd.Fn, F, "")
+				v, why := fieldAtSuccess(hd.Fn, F, "", nil)
 				if why != "" {
 					w.undecided(P, "R01.14", "abbreviation @: principal node type", hd.Fn.Pos(), why)
 				} else {
@@ -116,7 +114,16 @@ func (w *World) checkPrincipalNodeType(P string, f *Facts, r *Roles, ef *ExecFac
 			for _, g := range w.handlerClosure(hs.Fn) {
 				allInstrs(g, func(in ssa.Instruction) {
 					c, ok := in.(*ssa.Call)
-					if !ok || staticCallee(c) != arm.Callee {
+					if !ok {
+						return
+					}
+					applies := staticCallee(c) == arm.Callee
+					for _, a := range c.Call.Args {
+						if fv, isFn := stripConv(a).(*ssa.Function); isFn && fv == arm.Callee {
+							applies = true // the selector handed to a helper that applies it
+						}
+					}
+					if !applies {
 						return
 					}
 					n++
@@ -132,6 +139,14 @@ func (w *World) checkPrincipalNodeType(P string, f *Facts, r *Roles, ef *ExecFac
 						}
 						if len(b.Succs) == 1 {
 							b = b.Succs[0]
+						} else if iff, isIf := b.Instrs[len(b.Instrs)-1].(*ssa.If); isIf && isErrTest(iff.Cond) {
+							// continue on the path without an error
+							bo := iff.Cond.(*ssa.BinOp)
+							if bo.Op == token.NEQ {
+								b = b.Succs[1]
+							} else {
+								b = b.Succs[0]
+							}
 						} else {
 							b = nil
 						}
@@ -229,7 +244,7 @@ func loadsField(fn *ssa.Function, ctx *types.Named, field int) bool {
 // fieldAtSuccess walks fn with every comparison of a string against a constant decided as if the string were axis
 // (all other branches are explored both ways) and returns the constant that field F of the first parameter holds at
 // the nil-error returns: "" when some path leaves it unset, an explanation when it is not a single constant.
-func fieldAtSuccess(fn *ssa.Function, F int, axis string) (string, string) {
+func fieldAtSuccess(fn *ssa.Function, F int, axis string, tbl *AxisTable) (string, string) {
 	type state struct {
 		b   *ssa.BasicBlock
 		val string
@@ -252,6 +267,10 @@ func fieldAtSuccess(fn *ssa.Function, F int, axis string) (string, string) {
 				if fa, ok := x.Addr.(*ssa.FieldAddr); ok && fa.Field == F && len(fn.Params) > 0 && fa.X == ssa.Value(fn.Params[0]) {
 					if t := constText(x.Val); t != "" {
 						val = t
+					} else if t := tableField(x.Val, axis, tbl); t != "" {
+						val = t
+					} else if t := constReturnFor(x.Val, axis); t != "" {
+						val = t
 					} else {
 						val = "?"
 						why = "a value that is not a constant is stored into the field"
@@ -263,6 +282,15 @@ func fieldAtSuccess(fn *ssa.Function, F int, axis string) (string, string) {
 				}
 				return
 			case *ssa.If:
+				// table-driven dispatch: the comma-ok of the lookup of the axis name
+				if ex, ok := x.Cond.(*ssa.Extract); ok && tbl != nil && tbl.Lookup != nil && ex.Tuple == ssa.Value(tbl.Lookup) && ex.Index == 1 && axis != "" {
+					if _, hit := tbl.Arms[axis]; hit {
+						walk(b.Succs[0], val, depth+1)
+					} else {
+						walk(b.Succs[1], val, depth+1)
+					}
+					return
+				}
 				if bo, ok := x.Cond.(*ssa.BinOp); ok && axis != "" && (bo.Op == token.EQL || bo.Op == token.NEQ) {
 					s, isS := constString(bo.Y)
 					if !isS {
@@ -456,4 +484,104 @@ func simulateBool(fn *ssa.Function, atom func(ssa.Value) (bool, bool)) (bool, bo
 		}
 	}
 	return false, false
+}
+
+// tableField: v is a field of the record looked up in the axis table; the constant that field has in the entry of axis.
+func tableField(v ssa.Value, axis string, tbl *AxisTable) string {
+	if tbl == nil || tbl.Lookup == nil || axis == "" {
+		return ""
+	}
+	arm := tbl.Arms[axis]
+	if arm == nil || arm.Fields == nil {
+		return ""
+	}
+	var rec ssa.Value
+	for _, rr := range referrers(tbl.Lookup) {
+		if ex, ok := rr.(*ssa.Extract); ok && ex.Index == 0 {
+			rec = ex
+		}
+	}
+	field := -1
+	switch x := v.(type) {
+	case *ssa.Field:
+		if x.X == rec {
+			field = x.Field
+		}
+	case *ssa.UnOp:
+		if fa, ok := x.X.(*ssa.FieldAddr); ok && isFieldOf(x, rec) {
+			field = fa.Field
+		}
+	}
+	if field < 0 {
+		return ""
+	}
+	return constText(arm.Fields[field])
+}
+
+// constReturnFor: v is the result of a package function applied to the axis name; the constant that function returns
+// when every comparison of a string with a constant is decided as if the string were axis.
+func constReturnFor(v ssa.Value, axis string) string {
+	c, ok := v.(*ssa.Call)
+	if !ok || axis == "" {
+		return ""
+	}
+	fn := staticCallee(c)
+	if fn == nil || fnPkgKey(fn) != "exec" || len(fn.Blocks) == 0 || fn.Signature.Results().Len() != 1 {
+		return ""
+	}
+	hasString := false
+	for _, p := range fn.Params {
+		if isStringType(p.Type()) {
+			hasString = true
+		}
+	}
+	if !hasString {
+		return ""
+	}
+	results := map[string]bool{}
+	seen := map[*ssa.BasicBlock]bool{}
+	var walk func(b *ssa.BasicBlock)
+	walk = func(b *ssa.BasicBlock) {
+		if seen[b] {
+			return
+		}
+		seen[b] = true
+		for _, in := range b.Instrs {
+			switch x := in.(type) {
+			case *ssa.Return:
+				results[constText(x.Results[0])] = true
+				return
+			case *ssa.If:
+				if bo, ok := x.Cond.(*ssa.BinOp); ok && (bo.Op == token.EQL || bo.Op == token.NEQ) {
+					s, isS := constString(bo.Y)
+					if !isS {
+						s, isS = constString(bo.X)
+					}
+					if isS {
+						eq := (s == axis) == (bo.Op == token.EQL)
+						if eq {
+							walk(b.Succs[0])
+						} else {
+							walk(b.Succs[1])
+						}
+						return
+					}
+				}
+				walk(b.Succs[0])
+				walk(b.Succs[1])
+				return
+			}
+		}
+		for _, s := range b.Succs {
+			walk(s)
+		}
+	}
+	walk(fn.Blocks[0])
+	if len(results) != 1 {
+		return ""
+	}
+	for r := range results {
+		return r
+	}
+	return ""
 }
